@@ -16,7 +16,7 @@ WIDTH = {"u8": (24, 1), "u16": (25, 2), "u32": (26, 4), "u64": (27, 8)}
 def head_bytes(rng, h):
     m, f, a = h
     if f == "imm":
-        return bytes([(m << 5) | (0 if a == "zero" else rng.choice([1, 2, 3, 23]))])
+        return bytes([(m << 5) | (0 if a == "zero" else rng.choice([1, 1, 2, 3, 23]))])
     if f == "res":
         return bytes([(m << 5) | rng.choice([28, 29, 30])])
     if f == "ind":
@@ -24,6 +24,10 @@ def head_bytes(rng, h):
     ai, w = WIDTH[f]
     if a == "zero":
         v = 0
+    elif a == "small" and m == 6:
+        # tags: the numbers the decoder has handlers for (1 time, 63 embedded CBOR, 260/261 address and prefix,
+        # 262 embedded JSON, 263 hex), so that every handler meets every kind of content head that follows
+        v = rng.choice([1, 63] if w == 1 else [1, 63, 260, 261, 262, 263, 264])
     elif a == "small":
         v = rng.choice([1, 2, 3])
     elif a == "beyond":
@@ -39,8 +43,11 @@ def head_bytes(rng, h):
     return bytes([(m << 5) | ai]) + v.to_bytes(w, "big")
 
 
-def concretise(rng, seq):
-    b = b"".join(head_bytes(rng, h) for h in seq)
+def concretise(rng, seq, tag=None):
+    if tag is not None:        # first head: this tag number, in the two-byte form
+        b = bytes([0xd9]) + tag.to_bytes(2, "big") + b"".join(head_bytes(rng, h) for h in seq[1:])
+    else:
+        b = b"".join(head_bytes(rng, h) for h in seq)
     tail = rng.choice([b"", b"\xff", b"\x61a\x01\xff", bytes(rng.randrange(256) for _ in range(rng.randrange(1, 6)))])
     return b + tail
 
@@ -87,6 +94,10 @@ def check(pid, tier, seed, replay=None):
             for i, s in enumerate(seqs):
                 for rep in range(2 if thorough else 1):
                     ops.append({"a": "Input", "id": "gen%d_%d" % (i, rep), "hex": concretise(rng, s).hex(), "abs": s})
+                if s[0] == [6, "u16", "small"]:
+                    # every tag the decoder has a handler for (and one it has none for) in front of every kind of content head
+                    for tag in (1, 63, 260, 261, 262, 263, 264):
+                        ops.append({"a": "Input", "id": "gen%d_tag%d" % (i, tag), "hex": concretise(rng, s, tag=tag).hex(), "abs": s})
             # exhaustive sweeps: every input of 1 and 2 bytes (quick) and 3 bytes (thorough), split by first byte
             ops.append({"a": "Sweep", "id": "sweep1", "len": 1, "first": 0})
             for b0 in range(256):
